@@ -154,6 +154,7 @@ func (self Compiler) codeLen() int { return len(self.CurrFn().Instructions) }
     ensures @aligned self.aligned() && self.CurrFn() == old(self.CurrFn())
     ensures @neg op == ast.MinusPrefixOperator ==> self.codeLen() == old(self.codeLen())+1 && self.emitted(0).Opcode() == Opcode_Neg && self.emittedSpan(0) == span
     ensures @not op == ast.NegatePrefixOperator ==> self.codeLen() == old(self.codeLen())+1 && self.emitted(0).Opcode() == Opcode_Not && self.emittedSpan(0) == span
+    ensures @only-appends self.codeLen() >= old(self.codeLen())
     ensures @some op == ast.IntoSomePrefixOperator ==> self.codeLen() == old(self.codeLen())+1 && self.emitted(0).Opcode() == Opcode_Some && self.emittedSpan(0) == span
 @*/
 
@@ -284,20 +285,82 @@ func b2i(b bool) int {
     loop 1 decreases int(self.tryDepth) - int(depth)
 @*/
 
-// Expressions never bind a name in the scope they are compiled in (blocks,
-// function literals, match arms push their own): assumed for compileExpr as a
-// whole here; the statement level below is verified against it.
+// Frame of the expression level. Expressions never bind a name in the scope
+// they are compiled in (blocks, function literals, match arms and catch
+// blocks push their own), leave the loop stack and the count of open try
+// blocks as they found them, only append code, and stay in the function they
+// were called in.
 
-/*@ func (self *Compiler) compileExpr
+/*@ template for (self *Compiler) compile*Expr*
     serves C01, C11, C15
-    trusted
+    assume-safety
     requires self.scopesWF() && self.aligned()
     ensures @only-appends self.codeLen() >= old(self.codeLen())
+    ensures @scope-stack-balanced self.scopesWF() && len(self.varScopes) == old(len(self.varScopes))
+    ensures @scopes-kept forall i in 0..len(self.varScopes) :: samemap(self.varScopes[i], old(self.varScopes[i]))
+    ensures @loop-stack-balanced len(self.loops) == old(len(self.loops))
+    ensures @handlers-balanced self.tryDepth == old(self.tryDepth)
+    ensures @no-scope-changed forall m map[string]string in allocated :: samecontent(m, old(m))
+    loopinvariant self.scopesWF() && self.aligned() && self.codeLen() >= entry(self.codeLen()) && len(self.varScopes) == entry(len(self.varScopes)) && len(self.loops) == entry(len(self.loops)) && self.tryDepth == entry(self.tryDepth) && self.currFn == entry(self.currFn) && self.currModule == entry(self.currModule) && samemap(self.modules, entry(self.modules)) && self.CurrFn() == entry(self.CurrFn())
+    loopinvariant forall i in 0..len(self.varScopes) :: samemap(self.varScopes[i], entry(self.varScopes[i]))
+    loopinvariant forall m map[string]string in allocated :: samecontent(m, entry(m))
+@*/
+
+/*@ func (self *Compiler) compileIfExpr
+    ensures @same-function self.aligned() && self.currFn == old(self.currFn) && self.currModule == old(self.currModule) && samemap(self.modules, old(self.modules)) && self.CurrFn() == old(self.CurrFn())
+@*/
+
+/*@ func (self *Compiler) compileCallExpr
+    ensures @same-function self.aligned() && self.currFn == old(self.currFn) && self.currModule == old(self.currModule) && samemap(self.modules, old(self.modules)) && self.CurrFn() == old(self.CurrFn())
+@*/
+
+// vInfixShape: how an infix operator is lowered (0: `||` and 1: `&&` short-circuit, 2: one instruction sequence).
+func vInfixShape(op pAst.InfixOperator) int {
+	switch op {
+	case pAst.LogicalOrInfixOperator:
+		return 0
+	case pAst.LogicalAndInfixOperator:
+		return 1
+	}
+	return 2
+}
+
+/*@ func (self *Compiler) compileInfixExpr
+    split vInfixShape(node.Operator) in 0..2
+    assumes @well-formed-tree node.Operator <= pAst.GreaterThanEqualInfixOperator
+    ensures @same-function self.aligned() && self.currFn == old(self.currFn) && self.currModule == old(self.currModule) && samemap(self.modules, old(self.modules)) && self.CurrFn() == old(self.CurrFn())
+@*/
+
+/*@ func (self *Compiler) compileIdentExpression
+    ensures @same-function self.aligned() && self.currFn == old(self.currFn) && self.currModule == old(self.currModule) && samemap(self.modules, old(self.modules)) && self.CurrFn() == old(self.CurrFn())
+@*/
+
+// A function literal is compiled into a function of its own (named
+// $lambda_<n> with a fresh n, so it is not the function being compiled; the
+// freshness of the formatted name is the assumed part below).
+
+/*@ func (self *Compiler) compileFn
+    serves C01, C11, C15
+    trusted
+    requires self.scopesWF()
     ensures @scope-stack-balanced self.scopesWF() && len(self.varScopes) == old(len(self.varScopes)) && forall i in 0..len(self.varScopes) :: samemap(self.varScopes[i], old(self.varScopes[i]))
     ensures @loop-stack-balanced len(self.loops) == old(len(self.loops))
     ensures @handlers-balanced self.tryDepth == old(self.tryDepth)
-    ensures @same-function self.aligned() && self.currFn == old(self.currFn) && self.currModule == old(self.currModule) && samemap(self.modules, old(self.modules)) && self.CurrFn() == old(self.CurrFn())
     ensures @no-scope-changed forall m map[string]string in allocated :: samecontent(m, old(m))
+    ensures @same-module self.currModule == old(self.currModule) && samemap(self.modules, old(self.modules))
+@*/
+
+/*@ func (self *Compiler) compileExpr
+    serves C01, C11, C15
+    split node.Kind() in 0..24
+    splitcond at 16 :: node.(ast.AnalyzedAssignExpression).Lhs.Kind() == ast.IdentExpressionKind
+    splitcond at 16 :: node.(ast.AnalyzedAssignExpression).Operator != pAst.StdAssignOperatorKind
+    assumes @well-formed-tree node != nil && node.Kind() != ast.UnknownExpressionKind
+    assume @well-formed-assignment before-each self.arithmeticHelper(node.Operator.IntoInfixOperator(), node.Range) :: node.Operator <= pAst.BitXorAssignOperatorKind
+    ensures @same-function self.aligned() && self.currFn == old(self.currFn) && self.currModule == old(self.currModule) && samemap(self.modules, old(self.modules)) && self.CurrFn() == old(self.CurrFn())
+    assume @literal-is-another-function after self.currFn = oldCurrFn :: self.aligned() && self.CurrFn() == old(self.CurrFn()) && self.codeLen() == old(self.codeLen())
+    assert @try-block-counted before self.compileBlock(node.TryBlock, true) :: self.tryDepth == old(self.tryDepth)+1 && self.emitted(0).Opcode() == Opcode_SetTryLabel
+    assert @try-block-closed after self.insert(newPrimitiveInstruction(Opcode_PopTryLabel), node.Range) :: self.tryDepth == old(self.tryDepth) && self.emitted(0).Opcode() == Opcode_PopTryLabel
 @*/
 
 /*@ func (self *Compiler) compileLetStmt
@@ -305,6 +368,7 @@ func b2i(b bool) int {
     assume-safety
     requires self.scopesWF() && self.aligned()
     ensures @scope-stack-balanced self.scopesWF() && len(self.varScopes) == old(len(self.varScopes)) && forall i in 0..len(self.varScopes) :: samemap(self.varScopes[i], old(self.varScopes[i]))
+    ensures @only-appends self.codeLen() >= old(self.codeLen())
     ensures @loop-stack-balanced len(self.loops) == old(len(self.loops))
     ensures @handlers-balanced self.tryDepth == old(self.tryDepth)
     ensures @same-function self.aligned() && self.currFn == old(self.currFn) && self.currModule == old(self.currModule) && samemap(self.modules, old(self.modules)) && self.CurrFn() == old(self.CurrFn())
@@ -319,12 +383,13 @@ func b2i(b bool) int {
     split b2i(pushScope) in 0..1
     requires self.scopesWF() && self.aligned()
     ensures @scope-stack-balanced self.scopesWF() && len(self.varScopes) == old(len(self.varScopes)) && forall i in 0..len(self.varScopes) :: samemap(self.varScopes[i], old(self.varScopes[i]))
+    ensures @only-appends self.codeLen() >= old(self.codeLen())
     ensures @loop-stack-balanced len(self.loops) == old(len(self.loops))
     ensures @handlers-balanced self.tryDepth == old(self.tryDepth)
     ensures @same-function self.aligned() && self.currFn == old(self.currFn) && self.currModule == old(self.currModule) && samemap(self.modules, old(self.modules)) && self.CurrFn() == old(self.CurrFn())
     ensures @only-current-scope forall m map[string]string in allocated :: !samemap(m, old(self.varScopes[len(self.varScopes)-1])) ==> samecontent(m, old(m))
     ensures @own-scope pushScope ==> forall m map[string]string in allocated :: samecontent(m, old(m))
-    loop 1 invariant self.scopesWF() && self.aligned() && len(self.varScopes) == entry(len(self.varScopes)) && len(self.loops) == entry(len(self.loops)) && self.tryDepth == entry(self.tryDepth) && self.currFn == entry(self.currFn) && self.currModule == entry(self.currModule) && samemap(self.modules, entry(self.modules)) && self.CurrFn() == entry(self.CurrFn())
+    loop 1 invariant self.scopesWF() && self.aligned() && self.codeLen() >= entry(self.codeLen()) && len(self.varScopes) == entry(len(self.varScopes)) && len(self.loops) == entry(len(self.loops)) && self.tryDepth == entry(self.tryDepth) && self.currFn == entry(self.currFn) && self.currModule == entry(self.currModule) && samemap(self.modules, entry(self.modules)) && self.CurrFn() == entry(self.CurrFn())
     loop 1 invariant forall i in 0..len(self.varScopes) :: samemap(self.varScopes[i], entry(self.varScopes[i]))
     loop 1 invariant forall m map[string]string in allocated :: !samemap(m, self.varScopes[len(self.varScopes)-1]) ==> samecontent(m, entry(m))
 @*/
@@ -344,12 +409,13 @@ func b2i(b bool) int {
     ensures @continue-jumps node.Kind() == ast.ContinueStatementKind ==> self.emitted(0).Opcode() == Opcode_Jump && self.emitted(0).(OneStringInstruction).Value == self.loops[len(self.loops)-1].labelContinue
     requires self.scopesWF() && self.aligned()
     ensures @scope-stack-balanced self.scopesWF() && len(self.varScopes) == old(len(self.varScopes)) && forall i in 0..len(self.varScopes) :: samemap(self.varScopes[i], old(self.varScopes[i]))
+    ensures @only-appends self.codeLen() >= old(self.codeLen())
     ensures @loop-stack-balanced len(self.loops) == old(len(self.loops))
     ensures @handlers-balanced self.tryDepth == old(self.tryDepth)
     ensures @same-function self.aligned() && self.currFn == old(self.currFn) && self.currModule == old(self.currModule) && samemap(self.modules, old(self.modules)) && self.CurrFn() == old(self.CurrFn())
     ensures @only-current-scope forall m map[string]string in allocated :: !samemap(m, old(self.varScopes[len(self.varScopes)-1])) ==> samecontent(m, old(m))
     ensures @only-let-declares node.Kind() != ast.LetStatementKind ==> forall m map[string]string in allocated :: samecontent(m, old(m))
-    loop 1 invariant self.scopesWF() && self.aligned() && len(self.varScopes) == entry(len(self.varScopes)) && len(self.loops) == entry(len(self.loops)) && self.tryDepth == entry(self.tryDepth) && self.currFn == entry(self.currFn) && self.currModule == entry(self.currModule) && samemap(self.modules, entry(self.modules)) && self.CurrFn() == entry(self.CurrFn())
+    loop 1 invariant self.scopesWF() && self.aligned() && self.codeLen() >= entry(self.codeLen()) && len(self.varScopes) == entry(len(self.varScopes)) && len(self.loops) == entry(len(self.loops)) && self.tryDepth == entry(self.tryDepth) && self.currFn == entry(self.currFn) && self.currModule == entry(self.currModule) && samemap(self.modules, entry(self.modules)) && self.CurrFn() == entry(self.CurrFn())
     loop 1 invariant forall i in 0..len(self.varScopes) :: samemap(self.varScopes[i], entry(self.varScopes[i]))
     loop 1 invariant forall m map[string]string in allocated :: samecontent(m, entry(m))
 @*/
